@@ -229,7 +229,31 @@ def check_successor(ctx):
     C02.check_successor(ctx, "C08.successor")
 
 
+def check_acquire(ctx):
+    """the reader side of the extent guard: the reader count is bumped by a compare-exchange whose expected value was tested
+    for EXTENT_RETIRED *since that value was obtained* — also when the value comes from a failed previous attempt. Otherwise a
+    retry can take a guard on an extent the flusher has already seen retired and reader-free."""
+    inst = "C08.acquire"
+    b = ctx.fn("Record::acquire_extent", inst)
+    if b is None:
+        return
+    cas = ctx.sites(b, R.call("Atomic::compare_exchange_weak", "Atomic::compare_exchange", "AtomicU32::compare_exchange_weak", "AtomicU32::compare_exchange"), inst, exact=1)
+    def retired(e):
+        return e.k == "bin" and e.extra == "Eq" and any(x.k == "bin" and x.extra == "BitAnd" and x.has_const(name="EXTENT_RETIRED") for x in e.walk()) and e.has_const(val=0)
+    ok_edges = A.pred_edges(b, retired, "true")     # (state & RETIRED) == 0
+    ctx.check(bool(ok_edges), inst, "anchor", b.path, "the retired bit of the state is tested", None)
+    R.guard(ctx, inst, b, cas, ok_edges, "the state handed to the compare-exchange was tested for EXTENT_RETIRED after it was last obtained (initial load or failed attempt)")
+    somes = [n.id for n in b.nodes if n.kind == "assign" and not n.ev["dst"]["p"] and n.ev["dst"]["l"] == 0 and n.ev.get("rv") == "agg" and n.ev.get("var") == "Some"]
+    R.guard(ctx, inst, b, somes, R.guard_edges_for_call(b, cas, "Ok"), "a guard is handed out only after its compare-exchange succeeded")
+    for c in cas:
+        cur = R.arg_expr(b, b.nodes[c], 1)
+        new = R.arg_expr(b, b.nodes[c], 2)
+        ok = new.k == "bin" and new.extra.startswith("Add") and any(x.k == "const" and (x.extra or {}).get("val") == 1 for x in new.a) and any(x.key() == cur.key() for x in new.a)
+        ctx.check(ok, inst, "PIN", b.path, "the installed state is the tested state + 1 reader", b.where(c), {"expected": cur.show()[:60], "new": new.show()[:60]})
+
+
 def check(ctx):
+    check_acquire(ctx)
     check_successor(ctx)
     check_pin(ctx)
     check_retire(ctx)
